@@ -189,3 +189,73 @@ def roots(factory, r):
         for i in reversed(range(len(menu))):
             stack.append(prefix + (i,))
     return out
+
+
+def run_default(factory, prefix, acc=None, count_states=True):
+    """Replay `prefix`, then continue on defaults (choice 0) until the menu is empty or a violation shows.
+    -> (harness (still open), menus, trace, violations_midway)"""
+    h = factory()
+    menus, trace = [], []
+    try:
+        step = 0
+        while True:
+            m = h.menu()
+            if not m:
+                break
+            c = prefix[step] if step < len(prefix) else 0
+            if c >= len(m):
+                raise ReplayMismatch(f"replay step {step}: choice {c} out of range {m} (prefix {list(prefix)})")
+            menus.append(m)
+            trace.append(m[c])
+            h.take(c)
+            step += 1
+            if acc is not None:
+                acc.transitions += 1
+                acc.symbols[m[c].split("|")[0].split(":")[0]] += 1
+                if count_states:
+                    k = h.canon()
+                    if k is not None:
+                        acc.state_keys.add(core.h64(k))
+            v = h.violations()
+            if v:
+                return h, menus, trace, v
+        if step < len(prefix):
+            raise ReplayMismatch(f"prefix {list(prefix)} longer than the execution ({step} steps)")
+        return h, menus, trace, []
+    except BaseException:
+        h.close()
+        raise
+
+
+def explore_dev(factory, acc: core.Acc, *, max_dev, case, params, root=(), max_exec=None):
+    """Deviation-bounded stateless DFS (iterative context bounding transplanted to environment choices): every execution
+    runs to its horizon along defaults; every choice point after the prefix may deviate; all executions with at most
+    `max_dev` non-default choices below `root` are explored, each exactly once."""
+    stack = [tuple(root)]
+    n = 0
+    while stack:
+        prefix = stack.pop()
+        h, menus, trace, v = run_default(factory, prefix, acc)
+        try:
+            if not v:
+                v = h.finish()
+            outcome = getattr(h, "outcome", lambda: "done")()
+        finally:
+            h.close()
+        n += 1
+        choices = list(prefix) + [0] * (len(menus) - len(prefix))
+        for sig, detail in v:
+            acc.violation(sig, case, dict(params, choices=choices[: len(trace)]), dict(detail=detail, trace=trace))
+        acc.case(key=(repr(sorted(params.items())), tuple(choices)), outcome=outcome if not v else v[0][0], sample={"choices": choices, "trace": trace} if n <= 1 else None)
+        acc.traces += 1
+        devs = 0
+        for i in range(len(menus)):
+            if i >= len(prefix) and devs < max_dev:
+                for alt in range(1, len(menus[i])):
+                    stack.append(tuple(choices[:i]) + (alt,))
+            if choices[i] != 0:
+                devs += 1
+        if max_exec is not None and n >= max_exec:
+            acc.capped.append(f"max_exec={max_exec} reached below root {list(root)}")
+            break
+    return n
